@@ -369,6 +369,31 @@ class Audit:
             tys = [self._ty(f, o) for o in ops]
             if kind == 'overflow:Add' and len(ops) == 2 and all(self._small(f, o) for o in ops):
                 return 'usize/u64 sum of two values each < 2^62 (constants, lengths, widened u32)'
+        if kind == 'overflow:Sub' and len(ops) == 2:
+            # a - c behind a dominating `a >= c'` (c' >= c) edge
+            c = const_of(ops[1])
+            if c and c[0] is not None and ops[1][0] in ('const', 'cast'):
+                lhs = show(ops[0])
+                for sb in f.switches():
+                    e = f.cond(sb)[0]
+                    neg = False
+                    while e[0] == 'unop' and e[1] == 'Not':
+                        neg = not neg
+                        e = e[2]
+                    be = f.bool_edges(sb)
+                    if e[0] != 'binop' or e[1] not in ('Ge', 'Gt', 'Lt', 'Le') or not be:
+                        continue
+                    tt, ff = (be[1], be[0]) if neg else be
+                    op, a, b = e[1], e[2], e[3]
+                    if show(b) == lhs and const_of(a) and a[0] in ('const', 'cast'):
+                        a, b = b, a
+                        op = {'Ge': 'Le', 'Le': 'Ge', 'Lt': 'Gt', 'Gt': 'Lt'}[op]
+                    cb = const_of(b)
+                    if show(a) != lhs or not cb or cb[0] is None or b[0] not in ('const', 'cast'):
+                        continue
+                    n, good = {'Ge': (cb[0], tt), 'Lt': (cb[0], ff), 'Gt': (cb[0] + 1, tt), 'Le': (cb[0] + 1, ff)}[op]
+                    if n >= c[0] and (bb == good or bb in f.only_via_edge((sb, good))):
+                        return 'subtraction of %d behind a dominating `>= %d` test of the same value' % (c[0], n)
         if kind == 'index':
             # RangeFull / RangeTo on a slice never panics for `..`
             a = ops[1] if len(ops) > 1 else None
@@ -513,3 +538,112 @@ def s_await(F, rec):
                                   'and every path rule that treats the call site as "the call happened" would be fooled' % tgt)
     rec.site('crate', None, '%d calls of crate-local async fns, all awaited or select! branches' % n)
     return n
+
+
+def field_by_type(F, ty_re, what, adt_re=r'.'):
+    """name of the single struct field (in structs matching adt_re) whose type matches ty_re; identifies a field by what
+    it holds rather than by what it is called"""
+    hits = []
+    for p, a in F.adts.items():
+        if a.get('kind') != 'Struct' or not re.search(adt_re, p):
+            continue
+        for v in a['variants']:
+            for fl in v['fields']:
+                if re.search(ty_re, fl['ty']):
+                    hits.append((p, fl['name']))
+    if len(hits) != 1:
+        raise AnchorMissing('%s: expected one field, found %s' % (what, hits))
+    return hits[0]
+
+
+# ---- records built per element of a decoded list (file list, peer list) -------------------------
+
+def list_records(F, L, adt_re):
+    """aggregates of type adt_re that list builder L produces per source element, with field expressions normalised over
+    the element: [(fn, bb, fields, elem_expr, src_expr, adaptor_names, form)].  Two idioms are understood: an adaptor chain
+    (iter().filter_map(..)...collect(), closures composed stage by stage) and an explicit loop pushing the aggregate."""
+    out = []
+    for bi, si, e in mirq.agg_sites(L, adt_re):
+        fields = dict(e[4])
+        nx = {}
+        for v in fields.values():
+            for x in walk(v, inl=False):
+                if x[0] == 'call' and x[1] == 'std::iter::Iterator::next':
+                    nx[show(x)] = x
+        if len(nx) != 1:
+            raise AnchorMissing('%s: record fields draw on %d iterators' % (L.path, len(nx)))
+        n = list(nx.values())[0]
+        src, el, names = mirq.compose_chain(F, L, n[2][0])
+        elem = ('field', ('variant', n, 'Some'), '0')
+        if el is not mirq.ELEM:
+            raise AnchorMissing('%s: loop over an adapted iterator is not understood' % L.path)
+        out.append((L, bi, fields, elem, src, names, 'loop'))
+    if out:
+        return out
+    src, el, names = mirq.compose_chain(F, L, L.expr_local(0))
+    for x in walk(el, inl=False):
+        if x[0] == 'agg' and x[1] == 'adt' and re.search(adt_re, x[2] or ''):
+            out.append((L, None, dict(x[4]), mirq.ELEM, src, names, 'chain'))
+    return out
+
+
+CONVERSIONS = ('try_from', 'try_into', 'from_utf8', 'to_vec', 'as_slice', 'clone', 'to_owned', 'into', 'from', 'as_ref', 'deref')
+
+
+def dict_entry_of(v):
+    """(key, variant, dict_expr) when expression v is derived from exactly one `dict.get(key)` whose value is matched as
+    Some(BValue::<variant>(x)); None otherwise"""
+    gets = {}
+    for x in walk(v, inl=False):
+        if x[0] == 'call' and x[4].get('name') == 'get' and len(x[2]) == 2:
+            gets[show(x)] = x
+    if len(gets) != 1:
+        return None
+    g = list(gets.values())[0]
+    key = [bytes(y[1]).decode('latin1') for y in walk(g[2][1], inl=False) if y[0] == 'bytes']
+    if len(key) != 1:
+        return None
+    # the field is the entry's payload passed through representation conversions only
+    x = v
+    while True:
+        if x[0] == 'cast':
+            x = x[1]
+        elif x[0] == 'field' and x[2] == '0' and x[1][0] == 'variant' and x[1][2] == 'Ok' and x[1][1][0] == 'call' and \
+                x[1][1][4].get('name') in CONVERSIONS and len(x[1][1][2]) == 1:
+            x = x[1][1][2][0]
+        elif x[0] == 'call' and x[4].get('name') in CONVERSIONS and len(x[2]) == 1:
+            x = x[2][0]
+        else:
+            break
+    var = None
+    if x[0] == 'field' and x[2] == '0' and x[1][0] == 'variant' and x[1][1][0] == 'field' and x[1][1][2] == '0' and \
+            x[1][1][1][0] == 'variant' and x[1][1][1][2] == 'Some' and show(x[1][1][1][1]) == show(g):
+        var = x[1][2]
+    return key[0], var, g[2][0]
+
+
+def check_list_records(F, rec, L, adt_re, want, keyprefix):
+    """every record of type adt_re built by L takes field f from key want[f][0] matched as variant want[f][1] of the same
+    dictionary, which is the Dict payload of the list element itself; the list is walked in order without reordering"""
+    recs = list_records(F, L, adt_re)
+    rec.need(bool(recs), keyprefix + '-none', L, None, 'no %s record is built by %s' % (adt_re, L.path))
+    for f, bi, fields, elem, src, names, form in recs:
+        dicts = set()
+        desc = {}
+        for n, (key, variant) in want.items():
+            v = fields.get(n)
+            ent = dict_entry_of(v) if v is not None else None
+            desc[n] = (ent[0], ent[1]) if ent else None
+            ok = ent is not None and ent[0] == key and ent[1] == variant
+            rec.need(ok, '%s/%s' % (keyprefix, n), f, bi,
+                     'field %s is built from %s, expected key "%s" matched as %s' % (n, (ent[0], ent[1]) if ent else (show(v)[-80:] if v else None), key, variant))
+            if ent:
+                dicts.add(show(ent[2]))
+        want_dict = show(('field', ('variant', elem, 'Dict'), '0'))
+        rec.site(f, bi, '%s form: %s; element dict: %s' % (form, desc, sorted(dicts)))
+        rec.need(dicts == {want_dict}, keyprefix + '-dict', f, bi,
+                 'record fields are read from %s, expected the dictionary of the list element itself' % sorted(dicts))
+        bad = [n for n in names if n in ('rev', 'skip', 'take', 'step_by', 'skip_while', 'take_while', 'filter', 'enumerate', 'last', 'next')]
+        rec.need(not bad and mirq.param_root(L, src), keyprefix + '-order', f, bi,
+                 'the list is not walked in full, in order, from the parameter: %s over %s' % (names, show(src)[:60]))
+    return recs
